@@ -72,8 +72,9 @@ fn gen_depth(rng: &mut Rng) -> Case {
     }
     let nesting = cur.iter().map(|n| n.nesting()).max().unwrap_or(0);
     let lim = Limits { depth_limit: l, ..Default::default() };
-    // content of <specs> that fails is ignored by design, so a too-deep chain under specs is not judged
-    let judged = !specs_used;
+    // other errors inside <specs> are ignored by design; a limit is a limit there too
+    let judged = true;
+    let _ = specs_used;
     Case { what: "depth", nodes: cur, lim, expect_ok: if judged { Some(nesting as u32 <= l) } else { None }, kind: "DepthLimitExceeded", expect_items: None, quantity: nesting as i64, limit: l as i64 }
 }
 
@@ -97,14 +98,17 @@ fn gen_loop(rng: &mut Rng) -> Case {
     } else {
         lim.loop_limit = l;
     }
-    // wrap the loop in 0-2 groups, and give it siblings
+    // wrap the loop in 0-2 groups, and give it siblings; one in five inside a <specs> block (its content is
+    // processed for its registrations but not rendered; the limit applies all the same)
     let mut cur = vec![node];
     for _ in 0..rng.below(3) {
         cur = vec![X::node("g", &[], cur)];
     }
+    let in_specs = rng.chance(1, 5);
+    if in_specs { cur = vec![X::node("specs", &[], cur)]; }
     nodes.extend(cur);
     nodes.push(X::leaf("rect", &[("wh", "2")]));
-    Case { what: "loop", nodes, lim, expect_ok: Some(c as u32 <= l), kind: "LoopLimitError", expect_items: Some(c), quantity: c as i64, limit: l as i64 }
+    Case { what: if in_specs { "loop-in-specs" } else { "loop" }, nodes, lim, expect_ok: Some(c as u32 <= l), kind: "LoopLimitError", expect_items: Some(if in_specs { 0 } else { c }), quantity: c as i64, limit: l as i64 }
 }
 
 fn gen_var(rng: &mut Rng) -> Case {
@@ -134,16 +138,23 @@ fn gen_var(rng: &mut Rng) -> Case {
     } else {
         nodes.push(X::leaf("var", &[("v", &s)]));
     }
+    // one in five: the assignments stand inside a <specs> block
+    let in_specs = rng.chance(1, 5);
+    if in_specs {
+        let (vars, rest): (Vec<X>, Vec<X>) = nodes.into_iter().partition(|x| matches!(x, X::El { name, .. } if name == "var"));
+        nodes = rest;
+        nodes.push(X::node("specs", &[], vars));
+    }
     nodes.push(X::leaf("rect", &[("wh", "1"), ("class", "it")]));
     // leading/trailing blanks are part of the value; XML attribute normalisation does not trim spaces
-    Case { what: "var", nodes, lim, expect_ok: Some(len as u32 <= l), kind: "VarLimitError", expect_items: Some(1), quantity: len as i64, limit: l as i64 }
+    Case { what: if in_specs { "var-in-specs" } else { "var" }, nodes, lim, expect_ok: Some(len as u32 <= l), kind: "VarLimitError", expect_items: Some(1), quantity: len as i64, limit: l as i64 }
 }
 
 fn stream(rep: &mut Report, drv: &mut Driver, rng: &mut Rng, n: usize) -> Result<(), String> {
     let mut corr = Stream::new(
         "doc/limits",
         "correspondence",
-        "fragments built around one limit L (depth 2-9 / loop 1-14 / var-limit 1-40 bytes, set by configuration or <config>) with the quantity at L-1, L, L+1: nesting chains of g / a / loop / if / symbol / specs levels with siblings at every level and flat tails of 50-400 siblings; count loops and <for> lists; variable values incl. 2-byte characters and values built by substitution. Implementation (transform_probe: result kind, output elements, end-of-run depth / scope-stack / element-stack / in-specs) vs the Lean control-skeleton model; non-trivial = every case",
+        "fragments built around one limit L (depth 2-9 / loop 1-14 / var-limit 1-40 bytes, set by configuration or <config>) with the quantity at L-1, L, L+1: nesting chains of g / a / loop / if / symbol / specs levels with siblings at every level and flat tails of 50-400 siblings; count loops and <for> lists; variable values incl. 2-byte characters and values built by substitution; one loop / assignment in five inside a <specs> block. Implementation (transform_probe: result kind, output elements, end-of-run depth / scope-stack / element-stack / in-specs) vs the Lean control-skeleton model; non-trivial = every case",
     );
     let mut orc = Stream::new(
         "oracle/limits-two-sided",
